@@ -19,9 +19,9 @@ What is proved here, for all inputs:
     source rows, empty value where the side is unmatched — also for the non-monotone maps of joins with duplicate keys
     on both sides (C04 as generalised for NC02a), every chunk size;
   * `hints_irrelevant_maps` — the selections behind the maps do not depend on the unique hints.
-`merge_correct_partial` puts these together per destination column of the ordered path. The full statements
-(`merge_correct`, `hints_irrelevant`, `never_raises_on_truthful_hints`) are kept in a comment at the end of this file
-together with exactly what is missing.
+`merge_correct_partial` / `merge_ordered_columns_correct` put these together per destination column of the ordered path;
+`merge_correct`, `hints_irrelevant`, `never_raises_on_truthful_hints` are the full statements over the whole-frame model
+function `merge` (front end, both paths, destination frame); their hypotheses are listed at the end of this file.
 -/
 namespace Exetera.Props.C02
 
@@ -288,8 +288,8 @@ example : Truthful true [1, 3, 4] ∧ Truthful false [1, 1] := ⟨fun _ => by de
     the relational join — the same list of result rows for all columns of both sides, so the destination columns have
     equal length and row `r` of the destination is (left row | empty, right row | empty) of the `r`-th relational-join
     row; a side that has no map field is copied unchanged.
-    Missing for the full statement: see the comment at the end of the file (hypotheses `hselL`/`hselR` are facts about
-    `Spec.leftJoin`/`innerJoin` that are not proved here). -/
+    The hypotheses `hselL`/`hselR` are facts about `Spec.leftJoin`/`innerJoin`; they are discharged in
+    `merge_ordered_columns_correct`, and the whole frame is `merge_correct` (below). -/
 theorem merge_correct_partial (how : String) (hhow : how = "left" ∨ how = "right" ∨ how = "inner") (lu ru : Bool)
     (lk rk : List Int) (hl : Sorted lk) (hr : Sorted rk) (hlu : Truthful lu lk) (hru : Truthful ru rk)
     (cs vf : Nat) (hcs : 1 ≤ cs) (inv : Int) (hinvL : (lk.length : Int) ≤ inv) (hinvR : (rk.length : Int) ≤ inv)
@@ -509,7 +509,7 @@ theorem merge_correct (pandas : String → List Int → List Int → Except Err 
     rcases hwf.how with h | h | h | h <;> rw [h] <;> decide
   rw [merge_front pandas i cs vf fuel hsup hwf.tuples hwf.tupleLen hwf.leftOn hwf.rightOn hwf.leftKeys hwf.rightKeys
     (fun k hk => by obtain ⟨c, h1, h2⟩ := hwf.leftCols k hk; exact ⟨c, h1, h2.len⟩)
-    (fun k hk => by obtain ⟨c, h1, h2⟩ := hwf.rightCols k hk; exact ⟨c, h1, h2.len⟩)]
+    (fun k hk => by obtain ⟨c, h1, h2⟩ := hwf.rightCols k hk; exact ⟨c, h1, h2.len⟩) hwf.names]
   cases hord : isOrdered i with
   | true =>
     simp only [if_true]
@@ -620,35 +620,172 @@ theorem never_raises_on_truthful_hints (pandas : String → List Int → List In
   rw [h] at he
   cases he
 
-/-!
-## The full statements, and what is missing
+/-- arguments that pass the validators of `merge` (the part of `WellFormed` that is not about names, entry sizes or frame
+    sizes) -/
+structure ArgsOK (i : Input) : Prop where
+  how : i.how = "left" ∨ i.how = "right" ∨ i.how = "inner" ∨ i.how = "outer"
+  tuples : i.leftTuple = i.rightTuple
+  tupleLen : i.leftTuple = true → i.leftOn.length = i.rightOn.length
+  leftOn : i.leftOn ≠ []
+  rightOn : i.rightOn ≠ []
+  leftKeys : ∀ k ∈ i.leftOn, ∃ c, look i.left k = some c ∧ c.isIndexed = false ∧ c.len = i.lk.length
+  rightKeys : ∀ k ∈ i.rightOn, ∃ c, look i.right k = some c ∧ c.isIndexed = false ∧ c.len = i.rk.length
+  leftCols : ∀ k ∈ leftToMap i, ∃ c, look i.left k = some c ∧ c.len = i.lk.length
+  rightCols : ∀ k ∈ rightToMap i, ∃ c, look i.right k = some c ∧ c.len = i.rk.length
 
-```
-theorem merge_correct (pandas) (i : Input) (cs vf fuel) :
-    how ∈ {left,right,inner,outer} → truthful hints → frames well formed (every mapped field exists, all of a side's columns
-    as long as its key column, indexed columns IndexedOK with entries ≤ cs*vf, destination names pairwise distinct) →
-    pandas i.how i.lk i.rk = .ok pairs ∧ pairs.Perm (relJoin i.how i.lk i.rk) →
-    ∃ dest rows, merge pandas i cs vf fuel = .ok dest ∧ rows.Perm (relJoin i.how i.lk i.rk) ∧
-      (∀ left field f, look dest (destName f) = selectCol (left f) (rows.map (·.1))) ∧ (same for the right fields) ∧
-      all columns of dest have length rows.length ∧ (isOrdered i → the keys of rows are non-decreasing)
-theorem hints_irrelevant : the `rows` of a merge with truthful hints is a permutation of the `rows` without hints
-theorem never_raises_on_truthful_hints : under the same hypotheses `merge … ≠ .error _`
-```
-Proved above: the dispatch (`dispatch_table`, `call_sites`, `suffix_rule`, `sentinel_choice`), the maps
-(`ordered_maps_correct`, `hints_irrelevant_maps`), every column on both paths (`ordered_column_correct`,
-`ordered_column_copied`, `unordered_column_correct`) and their composition for the ordered path (`merge_correct_partial`).
-Missing (all about the assembly, none about the streamed code):
-  1. `addAll` (sequential `create_like` of the destination fields) succeeds and yields exactly the listed columns when the
-     destination names are pairwise distinct — a list induction that was not written;
-  2. `validate`/`merge` front end: that well-formed frames pass the validators and `leftLen = lk.length`;
-  3. the spec facts `hselL`/`hselR` (row numbers of `leftJoin`/`innerJoin` are in range) and, for a side that is copied
-     unchanged because it is unique and drives the join, `leftSel = [some 0, …, some (n-1)]`;
-  4. the key order on the ordered path (the driving side's selection is non-decreasing);
-  5. the unordered path as a whole frame: `unordered_column_correct` applied to `pairs.map (·.1)` / `(·.2)` plus the
-     `valid_l` / `valid_r` columns, under the recorded assumption that `pandas.merge` returns a permutation of `relJoin`
-     (the harness checks that assumption on every case it uses pandas for).
-The correspondence run compares the WHOLE destination frame of the real `DataFrame.merge` with the model on every case,
-and the real code with the relational-join oracle, so 1–5 are covered by differential execution, not by a theorem.
+/-- **A clash among the destination names is a `ValueError` before anything is written — with and without hints** (fix
+    NC02b). This is the guard `WellFormed.names` excludes: a source field called `_left_map`, `_right_map`, `valid_l` or
+    `valid_r`, or two mapped fields with the same (suffixed) destination name. As found, such a call raised or succeeded
+    depending on the hints (`_left_map`: only the ordered path raised; `valid_l`: only the unordered one). -/
+theorem name_clash_rejected (pandas : String → List Int → List Int → Except Err Pairs) (i : Input) (cs vf fuel : Nat)
+    (ha : ArgsOK i)
+    (hclash : ¬ (auxNames i ++ (leftToMap i).map (leftName i) ++ (rightToMap i).map (rightName i)).Nodup) :
+    (∃ msg, merge pandas i cs vf fuel = .error (.valueError msg)) ∧
+    merge pandas (noHints i) cs vf fuel = merge pandas i cs vf fuel := by
+  have hsup : supportedModes.contains i.how = true := by
+    rcases ha.how with h | h | h | h <;> rw [h] <;> decide
+  have hnd : allDistinct (allDestNames i (leftToMap i) (rightToMap i)) = false := by
+    rw [Bool.eq_false_iff]
+    intro h
+    exact hclash ((allDistinct_iff _).mp h)
+  have h1 := merge_front' pandas i cs vf fuel hsup ha.tuples ha.tupleLen ha.leftOn ha.rightOn ha.leftKeys ha.rightKeys
+    ha.leftCols ha.rightCols
+  have h2 := merge_front' pandas (noHints i) cs vf fuel hsup ha.tuples ha.tupleLen ha.leftOn ha.rightOn ha.leftKeys
+    ha.rightKeys ha.leftCols ha.rightCols
+  have hnd0 : allDistinct (allDestNames (noHints i) (leftToMap (noHints i)) (rightToMap (noHints i))) = false := hnd
+  rw [hnd] at h1
+  rw [hnd0] at h2
+  simp only [Bool.not_false, if_true] at h1 h2
+  exact ⟨⟨_, h1⟩, by rw [h1, h2]⟩
+
+/-! ## non-vacuity of the whole-frame theorems
+
+Two frames with duplicate keys on BOTH sides (`2, 2` against `2, 2`), unmatched rows at both ends of both key columns
+(`0`, `9` on the left, `1`, `5` on the right), a name clash (`k` on both sides → `k_l`, `k_r`) and an indexed-string
+column (`s` = "a", "bc", "", "d"); chunk size 2, so every streamed loop runs several chunks. -/
+
+/-- a `pandas.merge` that returns the relational join in REVERSE order (any permutation satisfies the assumption) -/
+def exPandas (how : String) (lk rk : List Int) : Except Err Pairs := .ok (relJoin how lk rk).reverse
+
+theorem exPandas_ok (i : Input) : PandasOK exPandas i := ⟨_, rfl, List.reverse_perm _⟩
+
+def exInput (how : String) (hint : Option Bool) : Input :=
+  { how := how
+    left := [("k", intCol [0, 2, 2, 9]), ("s", .indexed [0, 1, 3, 3, 4] [97, 98, 99, 100])]
+    right := [("k", intCol [1, 2, 2, 5]), ("v", .flat (.int 0) [.int 10, .int 20, .int 30, .int 40])]
+    leftOn := ["k"], rightOn := ["k"], leftTuple := false, rightTuple := false
+    leftFields := none, rightFields := none
+    hintLO := hint, hintRO := hint
+    lk := [0, 2, 2, 9], rk := [1, 2, 2, 5] }
+
+theorem exInput_wf (how : String) (hhow : how = "left" ∨ how = "right" ∨ how = "inner" ∨ how = "outer")
+    (hint : Option Bool) : WellFormed (exInput how hint) 2 8 where
+  how := hhow
+  tuples := rfl
+  tupleLen := by intro h; cases h
+  leftOn := by simp [exInput]
+  rightOn := by simp [exInput]
+  leftKeys := by
+    intro k hk
+    have : k = "k" := by simpa [exInput] using hk
+    subst this
+    exact ⟨_, rfl, rfl, rfl⟩
+  rightKeys := by
+    intro k hk
+    have : k = "k" := by simpa [exInput] using hk
+    subst this
+    exact ⟨_, rfl, rfl, rfl⟩
+  leftCols := by
+    intro k hk
+    have : k = "k" ∨ k = "s" := by simpa [leftToMap, names, exInput] using hk
+    rcases this with rfl | rfl
+    · exact ⟨_, rfl, ⟨rfl, fun ix vs h => by simp [intCol] at h⟩⟩
+    · exact ⟨_, rfl, ⟨rfl, fun ix vs h => by cases h; exact ⟨by unfold IndexedOK; decide, by decide⟩⟩⟩
+  rightCols := by
+    intro k hk
+    have : k = "k" ∨ k = "v" := by simpa [rightToMap, names, exInput] using hk
+    rcases this with rfl | rfl
+    · exact ⟨_, rfl, ⟨rfl, fun ix vs h => by simp [intCol] at h⟩⟩
+    · exact ⟨_, rfl, ⟨rfl, fun ix vs h => by cases h⟩⟩
+  names := by
+    show (["_left_map", "_right_map", "valid_l", "valid_r", "k_l", "s", "k_r", "v"] : List String).Nodup
+    decide
+  sizeL := by simp [exInput]
+  sizeR := by simp [exInput]
+  chunk := by decide
+
+theorem exInput_truthful (how : String) (hint : Option Bool) : TruthfulHints (exInput how hint) :=
+  ⟨fun _ => by simp [exInput, Sorted], fun _ => by simp [exInput, Sorted], nofun, nofun⟩
+
+/-- with both ordered hints the left join takes the ordered path, the outer join never does -/
+example : isOrdered (exInput "left" (some true)) = true ∧ isOrdered (exInput "outer" (some true)) = false := by decide
+
+/-- the hypotheses of the three theorems are met by this input, on both paths -/
+example := merge_correct exPandas (exInput "left" (some true)) 2 8 64 (exInput_wf _ (Or.inl rfl) _)
+  (exInput_truthful _ _) (exPandas_ok _) (by decide)
+example := merge_correct exPandas (exInput "outer" none) 2 8 64 (exInput_wf _ (Or.inr (Or.inr (Or.inr rfl))) _)
+  (exInput_truthful _ _) (exPandas_ok _) (by decide)
+example := hints_irrelevant exPandas (exInput "right" (some true)) 2 8 64 (exInput_wf _ (Or.inr (Or.inl rfl)) _)
+  (exInput_truthful _ _) (exPandas_ok _) (by decide)
+example := never_raises_on_truthful_hints exPandas (exInput "inner" (some true)) 2 8 64
+  (exInput_wf _ (Or.inr (Or.inr (Or.inl rfl))) _) (exInput_truthful _ _) (exPandas_ok _) (by decide)
+
+/-- what the model computes on it — ordered path, `how='left'`: rows in key order, the right map non-monotone -/
+example : merge exPandas (exInput "left" (some true)) 2 8 64 = .ok
+    [("_left_map", intCol [0, 1, 1, 2, 2, 3]), ("_right_map", intCol [4611686018427387904, 1, 2, 1, 2, 4611686018427387904]),
+     ("k_l", intCol [0, 2, 2, 2, 2, 9]), ("s", .indexed [0, 1, 3, 5, 5, 5, 6] [97, 98, 99, 98, 99, 100]),
+     ("k_r", intCol [0, 2, 2, 2, 2, 0]), ("v", .flat (.int 0) [.int 0, .int 20, .int 30, .int 20, .int 30, .int 0])] := by
+  rfl
+
+/-- … and on the unordered path, `how='outer'`, rows in the (reversed) order `exPandas` returns them -/
+example : merge exPandas (exInput "outer" none) 2 8 64 = .ok
+    [("k_l", intCol [0, 0, 9, 2, 2, 2, 2, 0]), ("s", .indexed [0, 0, 0, 1, 1, 1, 3, 5, 6] [100, 98, 99, 98, 99, 97]),
+     ("valid_l", boolCol [false, false, true, true, true, true, true, true]),
+     ("k_r", intCol [5, 1, 0, 2, 2, 2, 2, 0]),
+     ("v", .flat (.int 0) [.int 40, .int 10, .int 0, .int 30, .int 20, .int 30, .int 20, .int 0]),
+     ("valid_r", boolCol [true, true, false, true, true, true, true, false])] := by
+  rfl
+
+/-- the NC02b witness on the (repaired) model: a left field called `_left_map` is rejected with AND without the ordered hints -/
+def exReserved (hint : Option Bool) : Input :=
+  { how := "left"
+    left := [("k", intCol [1, 2, 3]), ("_left_map", intCol [10, 11, 12])]
+    right := [("k", intCol [2, 3, 4])]
+    leftOn := ["k"], rightOn := ["k"], leftTuple := false, rightTuple := false
+    leftFields := none, rightFields := none
+    hintLO := hint, hintRO := hint
+    lk := [1, 2, 3], rk := [2, 3, 4] }
+
+example : (∃ msg, merge exPandas (exReserved (some true)) 2 8 64 = .error (.valueError msg)) ∧
+    (∃ msg, merge exPandas (exReserved none) 2 8 64 = .error (.valueError msg)) := ⟨⟨_, rfl⟩, ⟨_, rfl⟩⟩
+
+/-!
+## What the full statements assume (nothing is left `_partial`)
+
+`merge_correct`, `hints_irrelevant`, `never_raises_on_truthful_hints` are proved above over the whole-frame model function
+`merge pandas i cs vf fuel`, for all four modes and both paths. `merge_correct_partial` (the earlier column-by-column form
+with the spec facts as hypotheses) is kept; `merge_ordered_columns_correct` is the same statement with those hypotheses
+discharged. The five gaps listed by the previous revision are closed by:
+  1. `Lemmas/MergeFrame.lean`: `addAll_ok`, `addAll_nil_ok`, `look_of_mem` (sequential `create_like`);
+  2. `Lemmas/MergeWhole.lean`: `merge_front` (validators pass, `left_len = lk.length`, path choice);
+  3. `Lemmas/MergeSpec.lean`: `relJoin_in_range`, `leftJoin_sel_of_nodup`; here `leftSel_in_range`, `rightSel_in_range`,
+     `no_map_is_identity`; `Lemmas/MergeFrame.lean`: `selectCol_id` (a stored indexed column is the encoding of its entries);
+  4. `Lemmas/MergeSpec.lean`: `relJoin_keys_sorted`; here `ordered_path_key_order`;
+  5. `Lemmas/MergeWhole.lean`: `unorderedMerge_frame`, `orderedMerge_frame`.
+Hypotheses, all visible in `WellFormed` / `TruthfulHints` / `PandasOK` and in the theorem statements:
+  * `pandas.merge` returns a permutation of `relJoin` (a PARAMETER of the model; recorded assumption, checked by the
+    harness on every case that takes the unordered path);
+  * the destination names are pairwise distinct INCLUDING the four names `merge` reserves (`_left_map`, `_right_map`,
+    `valid<left_suffix>`, `valid<right_suffix>`): a source field called `_left_map` makes the ordered path raise "field
+    already exists" while the hint-free call succeeds, a field called `valid_l` does the converse — finding NC02b. With
+    fix NC02b `merge` checks exactly this up front and raises `ValueError` on both paths (`name_clash_rejected`), so the
+    hypothesis is the code's own guard;
+  * an indexed-string entry fits the value buffer `cs * vf` of the streamed mapper (C04's supported regime: beyond it the
+    ordered path raises the clear error of `oversize_entry_clear_error`, the unordered path does not);
+  * fewer than 2^62 rows per side (the marker `INVALID_INDEX_64` must exceed every row number);
+  * `fuel` at least `|lk| + |rk| + 2·|relJoin| + 1` (the streamed generators' variant, C12);
+  * `lk` / `rk` are an order embedding of the key tuples (DESIGN 1.4): the tie between them and the key COLUMNS of the
+    frames is the harness's, not a theorem's.
 -/
 
 end Exetera.Props.C02
